@@ -197,6 +197,8 @@ C20NoPanic == O!C20NoPanic
 C20Work == O!C20Work
 C20Conv == O!C20Conv
 C20Prefix == O!C20Prefix
+C11Same == O!C11Same
+C11SameDone == O!C11SameDone
 
 \* the whole specification: every recorded step is a step of Optimiser
 Conform == [][O!NextW]_ovars
